@@ -37,3 +37,92 @@ def replay_file(prop, path):
         print(f"VIOLATION property={prop} replay={path}")
         return 1
     return 0 if v.get("status") == "not_reproduced" else 2
+
+
+# ----------------------------------------------------------------------------------------------
+# native replay binary (real /repo/core, real dependencies)
+REPLAY_DIR = os.path.join(VERIF, "replay")
+REPLAY_TARGET = os.path.join(REPLAY_DIR, "target")
+_built = {"ok": None}
+
+
+def build_replay():
+    """(Re)builds /verif/replay against /repo's current working tree. Returns path of the binary or None."""
+    if _built["ok"] is not None:
+        return _built["ok"]
+    import shutil
+    repo = os.environ.get("VERIF_REPO", "/repo")
+    shutil.copy(os.path.join(repo, "Cargo.lock"), os.path.join(REPLAY_DIR, "Cargo.lock"))
+    env = dict(os.environ)
+    env.update({"CARGO_NET_OFFLINE": "true"})
+    env.pop("RUSTFLAGS", None)
+    p = subprocess.run(["cargo", "build", "--offline", "--target-dir", REPLAY_TARGET], cwd=REPLAY_DIR, env=env,
+                       capture_output=True, text=True, timeout=1200)
+    binp = os.path.join(REPLAY_TARGET, "debug", "ocv-replay")
+    _built["ok"] = binp if p.returncode == 0 and os.path.isfile(binp) else False
+    if not _built["ok"]:
+        _built["err"] = (p.stderr or "")[-2000:]
+    return _built["ok"]
+
+
+def run_case(args, timeout_s):
+    """Runs one replay case. Returns dict(rc, timed_out, out(json or None), stderr_tail)."""
+    binp = build_replay()
+    if not binp:
+        return {"error": "replay crate does not build: " + _built.get("err", "")}
+    try:
+        p = subprocess.run([binp] + [str(a) for a in args], capture_output=True, text=True, timeout=timeout_s)
+    except subprocess.TimeoutExpired:
+        return {"rc": None, "timed_out": True, "out": None, "stderr_tail": ""}
+    out = None
+    for line in p.stdout.splitlines():
+        line = line.strip()
+        if line.startswith("{"):
+            try:
+                out = json.loads(line)
+            except Exception:
+                pass
+    return {"rc": p.returncode, "timed_out": False, "out": out, "stderr_tail": p.stderr[-400:]}
+
+
+def _int(rec, idx, signed=True):
+    vals = (rec.get("kani_values") or {}).get("values") or []
+    if idx >= len(vals):
+        return None
+    return int.from_bytes(bytes(vals[idx]["bytes"]), "little", signed=signed)
+
+
+@replayer("c14_select_timeout")
+def _replay_select_timeout(prop, harness, rec):
+    usec = _int(rec, 0)
+    tried = []
+    cands = [u for u in (usec, 64, 5000) if u is not None and 0 <= u <= 64000]
+    for u in cands:
+        budget = u / 1e6 + 2.0
+        r = run_case(["select", 0, u], budget)
+        if "error" in r:
+            return {"status": "unavailable", "detail": r["error"]}
+        tried.append({"tv_usec": u, "result": r})
+        if r["timed_out"]:
+            return {"status": "reproduced", "detail": f"select(timeout={u}us) still waiting after {budget:.1f}s", "tried": tried}
+        o = r["out"] or {}
+        el = o.get("elapsed_us")
+        if el is not None and (el < u or el > u + 1000 + 15000 + u // 5):
+            return {"status": "reproduced", "detail": f"select(timeout={u}us) returned after {el}us", "tried": tried}
+    return {"status": "not_reproduced", "detail": "elapsed time within [T, T + 1ms + slack] for all replayed values", "tried": tried}
+
+
+@replayer("c14_select_invalid")
+def _replay_select_invalid(prop, harness, rec):
+    sec, usec = _int(rec, 0), _int(rec, 1)
+    if sec is None or usec is None:
+        sec, usec = -1, 0
+    r = run_case(["select", sec, usec], 10)
+    if "error" in r:
+        return {"status": "unavailable", "detail": r["error"]}
+    o = r["out"]
+    if o is None or r["rc"] not in (0,):
+        return {"status": "reproduced", "detail": f"select(tv_sec={sec}, tv_usec={usec}) did not return (rc={r['rc']}): {r['stderr_tail'][-160:]}", "tried": [r]}
+    if o.get("ret") != -1 or o.get("errno") != 22:
+        return {"status": "reproduced", "detail": f"select(tv_sec={sec}, tv_usec={usec}) returned {o}", "tried": [r]}
+    return {"status": "not_reproduced", "detail": f"returned -1/EINVAL: {o}"}
